@@ -1146,6 +1146,8 @@ func (fr *Frame) checkFrame(c, addr, what string) {
 		if root := faRoot(addr); root != addr {
 			alts = append(alts, "(> "+root+" "+e.alloc0+")")
 		}
+		rootof := e.sc.declFun("rootof", []string{"Int"}, "Int")
+		alts = append(alts, "(and (< "+addr+" 0) (> ("+rootof+" "+addr+") "+e.alloc0+"))")
 	}
 	fr.oblige("frame", what+"("+c+")", sOr(alts...))
 }
